@@ -48,6 +48,11 @@ class SimEPIPE(BrokenPipeError):
     injected = True
 
 
+class InjectedCallbackFault(RuntimeError):
+    """A user callback fails once (transient fault inside an update)."""
+    injected = True
+
+
 class SimStream:
     """Simulated stderr. Fault plan: list of {at_write, kind} with kind in
     eio | closed | epipe | short. Faults are sticky from at_write on for
@@ -65,6 +70,12 @@ class SimStream:
     def heal(self):
         self.healed = True
         self.dead = None
+
+    def _raise_once(self, kind):
+        self.fired[kind] = self.fired.get(kind, 0) + 1
+        if kind == "epipe_once":
+            raise SimEPIPE(errno.EPIPE, "simulated broken pipe (transient)")
+        raise SimEIO(errno.EIO, "simulated I/O error (transient)")
 
     def _raise(self, kind):
         self.fired[kind] = self.fired.get(kind, 0) + 1
@@ -89,6 +100,9 @@ class SimStream:
                         n = len(s) // 2
                         self.bytes += n
                         return n
+                    if f["kind"].endswith("_once"):
+                        # transient fault: this write fails, the stream works again afterwards
+                        self._raise_once(f["kind"])
                     self.dead = f["kind"]
                     self._raise(f["kind"])
         self.bytes += len(s)
